@@ -104,6 +104,17 @@ def _describe(case, ev):
         brief = {a: (b[:16] if isinstance(b, list) else b) for a, b in ev.items()}
         return ("Mac Roman codec: %s" % json.dumps(brief)[:500],
                 {"part": "codec", "event": ev["ev"], "panic": ev["panic"]})
+    if k == "posthist":
+        names = [] if ev["nil"] else ev["names"]
+        got = ev["dec"]
+        i = next((i for i in range(min(len(got), len(names))) if got[i] != names[i]), min(len(got), len(names)))
+        ops = " ".join("%s%s" % (o["op"], o["a"] or "") for o in case["ops"])
+        what = ("glyph names do not survive the post table when the list has a history: init %r, calls [%s] (+ final "
+                "Encode); event %s: %d names given, version %s written, %d names read back (first difference at glyph %d)%s" % (
+                    case["init"], ops, ev["ev"], len(names), ev.get("ver"), len(got), i,
+                    "; x/image sees %d names" % len(ev["xi"]) if ev.get("xiused") else ""))
+        return what, {"part": "post", "kind": "history", "init": case["init"], "version": ev.get("ver"),
+                      "after_read": any(o["op"] == "R" for o in case["ops"]), "panic": bool(ev.get("panic"))}
     if k == "post":
         n = 0 if case.get("nil") else len(case.get("names") or [])
         brief = {a: b for a, b in ev.items() if a not in ("names", "index", "strings", "dec", "xi")}
@@ -261,6 +272,14 @@ def run(ctx):
     # 1. the design
     _model(ctx, "NameCodecName.cfg", "NameCodec name machine (4 records, all placements)")
     _model(ctx, "NameCodecPost.cfg", "NameCodec post machine (lists <= 4)")
+    hist_cfg = open(os.path.join(vlib.SPEC_DIR, "NameCodecPostHist.cfg")).read().replace(
+        "MaxOps = 4", "MaxOps = %d" % ctx.pick(3, 4))
+    hist = _model(ctx, "NCh.cfg", "NameCodec post object with history and aliasing (all call histories of length %d)"
+                  % ctx.pick(3, 4), files={"NCh.cfg": hist_cfg})
+    if len(hist.cases) < 1000:
+        raise vlib.Infra("the post history machine printed only %d histories" % len(hist.cases))
+    _model(ctx, "NameCodecPostHistMut.cfg", "NameCodec post object, caller writes into the shared slice (must fail)",
+           expect_violation="SharedIntact")
     _model(ctx, "NameCodecCodec.cfg", "NameCodec codec laws")
     _model(ctx, "NameCodecTags.cfg", "NameCodec tag mapping with private-use part")
     _model(ctx, "NameCodecTagsBare.cfg", "NameCodec tag mapping without private-use part (must fail)",
@@ -275,7 +294,8 @@ def run(ctx):
     ctx.cov["bounds"] = {
         "name": "2 Macintosh + 2 Windows records, 4 strings per platform (thorough: +1 Windows record of a second language "
                 "with 3 strings per platform) incl. shared/prefix/suffix/cross-platform-equal encodings, every storage placement",
-        "post": "3 standard names, 6 names per glyph, lists <= 4 (5 thorough), every re-use choice",
+        "post": "3 standard names, 6 names per glyph, lists <= 4 (5 thorough), every re-use choice; object with history: "
+                "5 initial lists, all histories of 3 (4 thorough) calls of Encode/Read/Slice x4/Append x2/Mutate",
         "codec": "10 boundary UTF-16 units, sequences <= 3; 15 boundary code points, sequences <= 2; all 256 bytes",
         "tags": "6 pairs with sibling scripts",
         "generated": "name.Info shapes <= 6 entries over 8 language x 10 id x 12 string classes; glyph lists <= 3 (4 "
@@ -284,7 +304,7 @@ def run(ctx):
 
     # 2. R: abstract inputs from TLC
     d = ctx.subdir("c14")
-    gens = []
+    gens = list(hist.cases)
     for cfg, kw in (("NameCodecGenNames1.cfg", {}), ("NameCodecGenUnits.cfg", {}),
                     ("NameCodecGenPost.cfg", {}),
                     ("NameCodecGenNames.cfg", {"workers": 1, "simulate": ctx.pick(1200, 12000), "depth": 20})):
